@@ -357,6 +357,16 @@ func c11(r *core.Run) {
 				}
 				fl.BranchOn = func(cond ssa.Value, succ int, st int) (int, bool) {
 					ci := core.Cond(cond)
+					// the cached value may have been copied to a local first: before = wt.v; if before == nil
+					if ci.Kind == "nilcmp" && !ci.HasFld {
+						if ld, ok := ci.X.(*ssa.UnOp); ok && ld.Op == token.MUL {
+							if v := lastStoreInBlock(ld); v != nil {
+								if f, ok := core.LoadedField(v); ok {
+									ci.Field, ci.HasFld = f, true
+								}
+							}
+						}
+					}
 					if ci.Kind == "nilcmp" && ci.HasFld && strings.HasSuffix(ci.Field.Struct, "readTxn") {
 						if _, isIface := ci.X.Type().Underlying().(*types.Interface); isIface {
 							truth := succ == 0
@@ -1038,4 +1048,20 @@ func loadsFieldThroughCell(v ssa.Value, f core.Field) bool {
 		}
 	}
 	return n > 0
+}
+
+// lastStoreInBlock: the value most recently stored, earlier in the same block,
+// to the cell that ld loads (nil if there is none).
+func lastStoreInBlock(ld *ssa.UnOp) ssa.Value {
+	b := ld.Block()
+	var last ssa.Value
+	for _, in := range b.Instrs {
+		if in == ssa.Instruction(ld) {
+			return last
+		}
+		if st, ok := in.(*ssa.Store); ok && st.Addr == ld.X {
+			last = st.Val
+		}
+	}
+	return nil
 }
